@@ -55,6 +55,17 @@ enum Expected {
 }
 
 fn expected(g: &Grammar, seq: &[usize], text: &str) -> (Expected, Option<crate::spec::re::RE>) {
+    let comments: Vec<&str> = seq
+        .iter()
+        .filter_map(|&i| match LINES[i].1 {
+            LK::Comment(c) => Some(c),
+            _ => None,
+        })
+        .collect();
+    expected_with_comments(g, &comments, text)
+}
+
+fn expected_with_comments(g: &Grammar, comments: &[&str], text: &str) -> (Expected, Option<crate::spec::re::RE>) {
     let tree = match reference_parse_rule(g, text) {
         RefParse::Accept(t) => t,
         RefParse::Reject { .. } => return (Expected::Rejected, None),
@@ -73,13 +84,6 @@ fn expected(g: &Grammar, seq: &[usize], text: &str) -> (Expected, Option<crate::
             }
         }
     }
-    let comments: Vec<&str> = seq
-        .iter()
-        .filter_map(|&i| match LINES[i].1 {
-            LK::Comment(c) => Some(c),
-            _ => None,
-        })
-        .collect();
     let name = match meta_name.or_else(|| comments.first().map(|s| s.to_string())) {
         Some(n) => n,
         None => return (Expected::MissingName, Some(tree.expr)),
@@ -261,6 +265,30 @@ pub fn run(tier: Tier) -> i32 {
             run_seq(&g, seq, &mut acc0);
         }
         acc0.count("long_texts", long.len() as u64);
+        // redundant parentheses only group, in metadata values too
+        for (text, comments, want_name, want_meta) in [
+            ("// n\n@k: (i1);\n@j: [(i1), {a: (\"s\")}];\n(x)", vec!["n"], "n", vec![("k", RV::Int(1)), ("j", RV::List(vec![RV::Int(1), RV::map(&[("a", RV::str("s"))])]))]),
+            ("@name: (\"N\");\n@k: ((none));\n((i1) + (i2))", vec![], "N", vec![("k", RV::None)]),
+            ("// c\n@k: ({});\n@l: ([]);\n@m: (((true)));\ni1", vec!["c"], "c", vec![("k", RV::map(&[])), ("l", RV::List(vec![])), ("m", RV::Bool(true))]),
+        ] {
+            acc0.count("executions", 1);
+            let (exp, _) = expected_with_comments(&g, &comments, text);
+            let want: BTreeMap<String, RV> = want_meta.into_iter().map(|(k, v)| (k.to_string(), v)).collect();
+            let consistent = matches!(&exp, Expected::Rule { name, metas, .. } if name == want_name && *metas == want);
+            if !consistent {
+                acc0.machinery(format!("reference disagrees with the hand-written expectation for {text:?}: {exp:?}"));
+                continue;
+            }
+            match impl_parse_rule(text) {
+                ImplParse::Ok(r) if r.name == want_name && r.metadata == want => acc0.outcome("parenthesised-metadata:ok"),
+                other => acc0.violation(Violation {
+                    sig: format!("parenthesised-metadata/{}", text.len()),
+                    what: format!("Rule::parse({text:?}): parentheses only group, expected name {want_name:?} and metadata {:?}, got {}", show_m(&want), short(&other)),
+                    case: json!({"kind": "raw", "text": text}),
+                    size: text.len(),
+                }),
+            }
+        }
         // many metadata items with repeated keys in scrambled order: the last written value wins
         for n in [8usize, 21, 33, 65, 130] {
             let keys = n / 2 + 1;
